@@ -216,17 +216,17 @@ def cvc5_says_unsat(solver, tlimit_ms, stats=None):
         return False
 
 
-def prove_int(pc, claim, timeout_nia=4000, timeout_lia=60000, stats=None, max_mult_vars=24):
+def prove_int(pc, claim, timeout_nia=4000, timeout_lia=60000, stats=None, max_mult_vars=24, scale=1):
     """returns ('proved', how) | ('cex', model) | ('unknown', reason)"""
     import os, sys
     t00 = time.time()
-    r = _prove_int(pc, claim, timeout_nia, timeout_lia, stats, max_mult_vars)
+    r = _prove_int(pc, claim, timeout_nia * scale, timeout_lia * scale, stats, max_mult_vars, scale)
     if os.environ.get('VERIF_DEBUG'):
         print('  [prove_int %.2fs -> %s %s] %s' % (time.time() - t00, r[0], r[1] if r[0] != 'cex' else '', str(claim)[:120].replace('\n', ' ')), file=sys.stderr, flush=True)
     return r
 
 
-def _prove_int(pc, claim, timeout_nia, timeout_lia, stats, max_mult_vars):
+def _prove_int(pc, claim, timeout_nia, timeout_lia, stats, max_mult_vars, scale=1):
     t0 = time.time()
     s = z3.Solver()
     s.set('timeout', timeout_nia)
@@ -311,7 +311,7 @@ def _prove_int(pc, claim, timeout_nia, timeout_lia, stats, max_mult_vars):
     mult = mult[:max_mult_vars]
     # stage A: plain abstraction (linear + uninterpreted functions), no product lemmas
     sA = z3.Solver()
-    sA.set('timeout', 5000)
+    sA.set('timeout', 5000 * scale)
     absconj = [L.abstract(c) for c in conj]
     for c in absconj:
         sA.add(c)
@@ -332,7 +332,7 @@ def _prove_int(pc, claim, timeout_nia, timeout_lia, stats, max_mult_vars):
         # hypotheses is sound for a proof and keeps the linear problem small; then with everything
         pure = [a for c, a in zip(conj, absconj) if not has_bv(c)]
         nlmult = [v for v in mult if v in nl]
-        plans = [(pure, nlmult, 20000), (pure, mult, 30000), (absconj, mult, min(timeout_lia, 30000))]
+        plans = [(pure, nlmult, 20000 * scale), (pure, mult, 30000 * scale), (absconj, mult, min(timeout_lia, 30000 * scale))]
         seen = set()
         for subset, mvars, budget in plans:
             key = (id(subset), len(mvars))
